@@ -23,6 +23,21 @@
 (* (Quiescent).  An answer that races with a deadline is, by definition, an answer whose phase  *)
 (* is ambiguous: the trace specification lets TLC choose the phase of such answers.             *)
 (*                                                                                              *)
+(* THE INSTANCE.  A strategy is one long-lived service object: main.go constructs it once and    *)
+(* the controller's jobs call it for every duty slot of the process's life (attestation data    *)
+(* once per slot, an aggregate per aggregating validator, ...).  What the instance keeps from    *)
+(* one call to the next is `Persistent` - its construction parameters: the strategy family, the  *)
+(* nodes, the threshold, the channel sizes (and time-out, process concurrency, which the model   *)
+(* does not need) - and NOTHING else: NextCall starts a further call on the same instance with   *)
+(* whatever the nodes do this time, from the state a call on a fresh instance starts from        *)
+(* (FreshCall, HistoryIndependent).  Every invariant below is therefore a statement about EVERY  *)
+(* call of EVERY history of calls on one instance - earlier calls with invalid / mismatching     *)
+(* answers, node errors, silence, time-outs, early stops included -, judged by that call's own   *)
+(* node behaviours only.  Calls that overlap on one instance (aggregates of one slot, the        *)
+(* attestation data of a slot while a straggler of the previous one is still in flight) are in   *)
+(* CollectorInst.tla; a design that is right on every fresh instance and wrong on a used one (a  *)
+(* leaked processing slot, a tally shared between calls) is CollectorSem.tla, which TLC rejects. *)
+(*                                                                                              *)
 (* Things the property leaves open are left open here: which of several equal-score responses   *)
 (* or equally frequent values wins; whether `best` stops at the soft time-out when it has a     *)
 (* response or keeps collecting until the hard one; whether `majority` stops as soon as the     *)
@@ -45,7 +60,7 @@ VARIABLES variant,     \* which strategy family
           pst,         \* provider goroutine: "idle" (waiting for its node), "blocked" (in a send), "done"
           respCh,      \* providers whose response sits in the response channel
           errCh,       \* providers whose error sits in the error channel
-          pc,          \* collector: "loop1", "loop2", "done"
+          pc,          \* collector: "loop1", "loop2", "done"; "idle": the instance is at rest between two calls
           responded, errored, timedOut, softTimedOut,   \* the collector's counters
           best,        \* provider of the best response so far (0: none)
           counts,      \* counts[v]: responses with value v received (majority variants)
@@ -212,13 +227,13 @@ Respond(p) ==
 NoneDue(phase) == \A p \in Provs : ~(pst[p] = "idle" /\ beh[p].k # "silent" /\ ph[p] = phase)
 
 SoftExpire ==
-    /\ clock = "early" /\ Quiescent /\ NoneDue("early")
+    /\ pc # "idle" /\ clock = "early" /\ Quiescent /\ NoneDue("early")
     /\ clock' = "mid"
     /\ UNCHANGED <<variant, n, thr, cap, beh, ph, pst, respCh, errCh, pc, responded, errored, timedOut, softTimedOut,
                    best, counts, rcvd, hardSel, steps, result>>
 
 HardExpire ==
-    /\ clock = "mid" /\ Quiescent /\ NoneDue("mid")
+    /\ pc # "idle" /\ clock = "mid" /\ Quiescent /\ NoneDue("mid")
     /\ clock' = "late"
     /\ UNCHANGED <<variant, n, thr, cap, beh, ph, pst, respCh, errCh, pc, responded, errored, timedOut, softTimedOut,
                    best, counts, rcvd, hardSel, steps, result>>
@@ -255,11 +270,11 @@ InitCollector ==
     /\ result = NoResult
 
 \* the same, primed (a trace starts a new strategy call with it)
-ResetCollector ==
+ClearCollector(newpc) ==
     /\ clock' = "early"
     /\ pst' = [p \in 1..n' |-> "idle"]
     /\ respCh' = {} /\ errCh' = {}
-    /\ pc' = IF variant' = "First" THEN "loop2" ELSE "loop1"
+    /\ pc' = newpc
     /\ responded' = 0 /\ errored' = 0 /\ timedOut' = 0 /\ softTimedOut' = 0
     /\ best' = 0
     /\ counts' = [v \in Values |-> 0]
@@ -267,6 +282,38 @@ ResetCollector ==
     /\ hardSel' = FALSE
     /\ steps' = 0
     /\ result' = NoResult
+
+ResetCollector == ClearCollector(IF variant' = "First" THEN "loop2" ELSE "loop1")
+
+\* what one call of an instance shares with the next: the construction parameters, nothing else
+Persistent == <<variant, n, thr, cap>>
+
+\* Between two calls the instance is at rest: every per-call variable is void.  (The previous call has
+\* returned and its stragglers have finished - calls of neighbouring slots are a slot apart; a call
+\* started while another one is still in flight is CollectorInst!StartOverlap.)
+AtRest ==
+    /\ pc = "idle" /\ clock = "early"
+    /\ beh = [p \in Provs |-> NoBeh] /\ ph = [p \in Provs |-> "late"]
+    /\ pst = [p \in Provs |-> "idle"] /\ respCh = {} /\ errCh = {}
+    /\ responded = 0 /\ errored = 0 /\ timedOut = 0 /\ softTimedOut = 0 /\ best = 0
+    /\ counts = [v \in Values |-> 0] /\ rcvd = {} /\ hardSel = FALSE /\ steps = 0 /\ result = NoResult
+
+EndCall ==
+    /\ Finished
+    /\ UNCHANGED Persistent
+    /\ beh' = [p \in Provs |-> NoBeh] /\ ph' = [p \in Provs |-> "late"]
+    /\ ClearCollector("idle")
+
+\* The instance is called again (the next slot's duty, the next aggregate ...): same construction
+\* parameters, the nodes do whatever they do this time, the collector starts from scratch.
+NextCall ==
+    /\ pc = "idle"
+    /\ UNCHANGED Persistent
+    /\ beh' \in [Provs -> Behaviours(variant)]
+    /\ ph' \in [Provs -> {"early", "mid", "late"}]
+    /\ \A p \in Provs : beh'[p].k = "silent" => ph'[p] = "late"
+    /\ \A p \in Provs : p < n => Code(beh'[p], ph'[p]) <= Code(beh'[p + 1], ph'[p + 1])
+    /\ ResetCollector
 
 Init ==
     /\ variant \in Variants
@@ -286,7 +333,13 @@ Next ==
     \/ SoftExpire \/ HardExpire
     \/ Terminated
 
+\* one call on a fresh instance
 Spec == Init /\ [][Next]_vars /\ WF_vars(Next)
+
+\* the instance over its life: call after call
+InstNext == Next \/ EndCall \/ NextCall
+
+InstSpec == Init /\ [][InstNext]_vars /\ WF_vars(InstNext)
 
 -----------------------------------------------------------------------------
 ValidP == {p \in Provs : Acceptable(p)}
@@ -298,7 +351,8 @@ Decided == result.st # "none"
 TypeOK ==
     /\ variant \in Variants /\ n \in 1..MaxN /\ thr \in 0..n
     /\ clock \in {"early", "mid", "late"}
-    /\ pc \in {"loop1", "loop2", "done"}
+    /\ pc \in {"loop1", "loop2", "done", "idle"}
+    /\ pc = "idle" => AtRest
     /\ respCh \subseteq Provs /\ errCh \subseteq Provs
     /\ Cardinality(respCh) <= cap /\ Cardinality(errCh) <= cap
     /\ best \in 0..n /\ rcvd \subseteq Provs
@@ -358,8 +412,21 @@ InvalidNeverReturned ==
         IF result.p # 0 THEN Acceptable(result.p)
         ELSE \E q \in rcvd : Acceptable(q) /\ beh[q].v = result.v
 
-\* every behaviour ends with a decision (deadlock freedom + acyclicity give the same)
+\* every call ends with a decision (deadlock freedom + acyclicity of a call give the same)
 Termination == <>(pc = "done")
+EveryCallReturns == (pc \in {"loop1", "loop2"}) ~> (pc = "done")
+
+\* C07 is a statement about every call, whatever the instance has been through: a call starts from the
+\* state a call on a fresh instance starts from - nothing but Persistent is carried into it.
+FreshCall ==
+    /\ clock = "early" /\ pst = [p \in Provs |-> "idle"] /\ respCh = {} /\ errCh = {}
+    /\ pc = (IF variant = "First" THEN "loop2" ELSE "loop1")
+    /\ responded = 0 /\ errored = 0 /\ timedOut = 0 /\ softTimedOut = 0 /\ best = 0
+    /\ counts = [v \in Values |-> 0] /\ rcvd = {} /\ hardSel = FALSE /\ steps = 0 /\ result = NoResult
+\* (At rest nothing of the previous call is left: TypeOK, pc = "idle" => AtRest.)
+HistoryIndependent ==
+    [][/\ UNCHANGED Persistent
+       /\ (pc = "idle" /\ pc' # "idle") => FreshCall']_vars
 
 \* For C20 (not part of C07's verdict): after the strategy has returned no provider goroutine
 \* is left blocked in a channel send that nobody will ever receive.
